@@ -198,7 +198,8 @@ def correspond_gen(prop):
                     mf = (model or {}).get(c["id"], {}).get("facts") if model else None
                     pairs.append((c, a, mf))
             viols, rstats, rerr = p_runtime.run_probe(prop, pairs, max_devices=(60 if tier == "thorough" else 20))
-            res.spec_violations += viols
+            # what the compiled driver did comes first in the replay: it names the accessor chain / call that went wrong
+            res.spec_violations = viols + res.spec_violations
             stats.update(rstats)
             if rerr:
                 res.harness_error = rerr
